@@ -70,3 +70,25 @@ package gateway
 //@   ensures[empty_name_rejected] len(inputSwampName) == 0 ==> err != nil
 //@   ensures[short_name_rejected] U_sepcount(inputSwampName, "/") < 2 ==> err != nil
 //@   ensures[name_or_error] err == nil ==> n != nil
+
+// ---------------------------------------------------------------------------------------
+// Property C26 (never unable to shut down / never crashes the process):
+//   handlePanic never panics itself (a panic escaping a handler kills the process: there is no
+//   gRPC recovery interceptor);
+//   every handler leaves the shutdown lock balanced on every return path: the system is locked
+//   exactly once, before any other work, and unlocked exactly once (a rejected request that
+//   unlocks without having locked drives the counter negative and lets the server stop mid-write).
+//@ trusted func (github.com/hydraide/hydraide/app/core/safeops.Safeops).LockSystem(s)
+//@ trusted func (github.com/hydraide/hydraide/app/core/safeops.Safeops).UnlockSystem(s)
+//@ trusted func runtime/debug.Stack() (b)
+
+//@ func handlePanic()
+//@   property C26
+//@   nopanic
+//@   modifies *
+
+//@ func (Gateway).DeRegisterSwamp(g, ctx, in) (resp, err)
+//@   property C26
+//@   modifies *
+//@   before Load [system_locked_before_any_work] calls("Safeops.LockSystem") == old(calls("Safeops.LockSystem")) + 1
+//@   ensures[shutdown_lock_balanced] calls("Safeops.LockSystem") == old(calls("Safeops.LockSystem")) + 1 && calls("Safeops.UnlockSystem") == old(calls("Safeops.UnlockSystem")) + 1
